@@ -1,6 +1,8 @@
 import HdVerif.Model.Json
 import HdVerif.Model.Coding
-open Lean HdVerif HdVerif.Drv HdVerif.Coding
+import HdVerif.Generated.T17m
+import Std.Data.HashMap
+open Lean HdVerif HdVerif.Drv HdVerif.Coding HdVerif.Gen
 
 def optStr (j : Json) : Except String (Option String) :=
   match j with
@@ -36,12 +38,25 @@ def parseObj (j : Json) : Except String Obj :=
 
 def getObj (j : Json) (k : String) : Except String Obj := do parseObj (← j.getObjVal? k)
 
-def getRetired (j : Json) : Except String (String → Option String) := do
-  match j.getObjVal? "retired" with
-  | .error _ => pure (fun _ => none)
-  | .ok r =>
-    let t ← parseDS r
-    pure (fun v => List.lookup v t)
+/-- `snomed_mapping[s].get(v)` from the tables REGENERATED from pydicom's `_snomed_dict.py` (T17m) -/
+abbrev Tables := Std.HashMap String (Std.HashMap String String)
+
+def buildTables : Tables :=
+  snomedTables.foldl (fun acc (s, entries) => acc.insert s (Std.HashMap.ofList entries)) {}
+
+def mappingOf (t : Tables) : String → String → Option String := fun s v =>
+  match t.get? s with
+  | some m => m.get? v
+  | none => none
+
+def parseOps (j : Json) : Except String (List Op) := do
+  let a ← j.getArr?
+  a.toList.mapM (fun e => do
+    let p ← e.getArr?
+    match p.toList with
+    | [k] => pure (Op.del (← k.getStr?))
+    | [k, v] => pure (Op.set (← k.getStr?) (← v.getStr?))
+    | _ => throw "op needs 1 or 2 entries")
 
 def clsOfStr : String → Cls
   | "dataset" => .dataset
@@ -55,19 +70,27 @@ def cellToJson (c : Cell) : Json := Json.mkObj [("cls", Json.str (clsToStr c.cls
 
 def pyHashStub (s : String) : Int := (s.hash.toNat : Int)
 
-def handlers : List (String × Handler) := [
+def handlers (t : Tables) : List (String × Handler) := [
   ("eq", fun j => do
-    let r := objEq (← getRetired j) (← getObj j "a") (← getObj j "b")
+    let r := objEq (mappingOf t) (← getObj j "a") (← getObj j "b")
     pure (exceptToJson (fun (b : Bool) => Json.bool b) r)),
   ("ne", fun j => do
-    let r := objNe (← getRetired j) (← getObj j "a") (← getObj j "b")
+    let r := objNe (mappingOf t) (← getObj j "a") (← getObj j "b")
     pure (exceptToJson (fun (b : Bool) => Json.bool b) r)),
   ("hashInput", fun j => do
     let r := hashInput (← getObj j "o")
     pure (exceptToJson (fun (s : String) => Json.str s) r)),
   ("setLen2", fun j => do
-    let r := setLen2 pyHashStub (← getRetired j) (← getObj j "a") (← getObj j "b")
+    let r := setLen2 pyHashStub (mappingOf t) (← getObj j "a") (← getObj j "b")
     pure (exceptToJson (fun (n : Nat) => (n : Json)) r)),
+  ("mutatedEq", fun j => do
+    -- a concept after a sequence of attribute assignments / deletions, compared in both directions
+    let d ← parseDS (← j.getObjVal? "ds")
+    let d' := applyOps d (← parseOps (← j.getObjVal? "ops"))
+    let o ← getObj j "other"
+    let f := fun (r : Except ErrKind Bool) => exceptToJson (fun (b : Bool) => Json.bool b) r
+    pure (Json.mkObj [("ok", Json.mkObj [("ds", dsToJson d'), ("ab", f (objEq (mappingOf t) (.concept d') o)),
+      ("ba", f (objEq (mappingOf t) o (.concept d')))])])),
   ("mk", fun j => do
     let ver ← optStr (j.getObjValD "version")
     let r := mkConcept (← getStr j "value") (← getStr j "scheme") (← getStr j "meaning") ver
@@ -96,4 +119,4 @@ def handlers : List (String × Handler) := [
       | _, _, _ => throw "dangling reference")
 ]
 
-def main : IO Unit := run handlers
+def main : IO Unit := run (handlers buildTables)
